@@ -210,3 +210,36 @@ def _(self, element: Obj("asn1tools/codecs/__init__.py", "BaseType")):
     ensures(self.location[:len(old(self.location))] == old(self.location))
     ensures(implies(len(old(self.location)) == 0 or old(self.location)[len(old(self.location)) - 1] != ident(element),
                     self.location == old(self.location) + [ident(element)]))
+
+
+@contract("decode_object_identifier_subidentifier", props=["C01", "C08", "C04"])
+def _(data: ByteArray, offset: Nat) -> Tup(Int, Int):
+    # base-128 digits, most significant first, bit 8 set on all but the last (X.690 8.19.2)
+    requires(offset <= len(data))
+    raises_iff(IndexError, not tag_cont_complete(data, offset))
+    ensures(result[1] == tag_cont_end(data, offset) and result[1] > offset and result[1] <= len(data))
+    ensures(result[0] == b128_val(data, offset, tag_cont_end(data, offset), 0) and result[0] >= 0)
+    loop(0, invariant=[offset >= old(offset), offset <= len(data), decoded >= 0, decoded % 128 == 0,
+                       tag_cont_end(data, offset) == tag_cont_end(data, old(offset)),
+                       tag_cont_complete(data, offset) == tag_cont_complete(data, old(offset)),
+                       b128_val(data, offset, tag_cont_end(data, old(offset)), decoded // 128)
+                       == b128_val(data, old(offset), tag_cont_end(data, old(offset)), 0)],
+         decreases=len(data) - offset)
+
+
+@contract("decode_object_identifier", props=["C01", "C08", "C04"])
+def _(data: ByteArray, offset: Nat, end_offset: Int) -> Str:
+    requires(offset <= len(data))
+    raises(IndexError)
+    # X.690 8.19.4: how the first subidentifier splits into the first two arcs
+    at_stmt("@loop0", check=[decoded == oid_first_arcs(b128_val(data, old(offset), tag_cont_end(data, old(offset)), 0))])
+    loop(0, invariant=[offset <= len(data)], decreases=len(data) - offset)
+
+
+@contract("encode_object_identifier_subidentifier", props=["C01", "C03"])
+def _(subidentifier: Nat) -> IntList:
+    # minimal base-128 digits, most significant first, bit 8 set on all but the last
+    ensures(result == rev([subidentifier % 128] + le128(subidentifier // 128)))
+    loop(0, invariant=[subidentifier >= 0,
+                       encoded + le128(subidentifier) == [old(subidentifier) % 128] + le128(old(subidentifier) // 128)],
+         decreases=subidentifier)
